@@ -14,7 +14,7 @@ from harness import simexplore as sx
 from harness.gen.problems import GenProblem, SerProblem
 from harness.core import gn, glist, gpair, gbool
 from harness.ser import ser_value, gqc
-from harness.props import c01, c03
+from harness.props import c01, c03, c05
 
 META = {
     "level": "proof",
@@ -106,9 +106,9 @@ def run(ctx):
     from unified_planning.engines.results import ValidationResultStatus
     ok_proofs = ctx.check_props(extra=["theories/Corr/Corr_C04.v"])
     rng = ctx.rng
-    nprob = 30 if ctx.quick else 350
+    nprob = 30 if ctx.quick else 250
     maxlen = 2 if ctx.quick else 3
-    cap = 40 if ctx.quick else 150
+    cap = 40 if ctx.quick else 100
     pre, cases, owners = [], [], []
     stats = {"problems": 0, "skipped": 0, "plans": 0, "tt_valid": 0, "seq_valid": 0, "agree": 0, "raised": 0,
              "lengths": {}, "time_order_differs_from_list_order": 0, "bounded_fluents": 0, "invariants": 0,
@@ -133,7 +133,7 @@ def run(ctx):
             t = f.type
             if (t.is_int_type() or t.is_real_type()) and (t.lower_bound is not None or t.upper_bound is not None):
                 stats["bounded_fluents"] += 1
-        pre.append("Definition P%d : problem := %s.\nDefinition M%d : metric := MNone." % (pi, ser.render(), pi))
+        pre.append((pi, "Definition P%d : problem := %s.\nDefinition M%d : metric := MNone." % (pi, ser.render(), pi)))
         insts = gen.ground_instances()
         plans = [()]
         for L in range(1, maxlen + 1):
@@ -188,13 +188,14 @@ def run(ctx):
             owners.append((gen, ser, rec, s0, pi, [insts[plan[k]] for k in order]))
             if rec["tt"] or rec["seq"] or len(plan) >= 2:
                 nontrivial.add(json.dumps(rec, default=str, sort_keys=True))
-    preamble = "\n".join(pre) + "\n"
-    codes = ctx.coq_codes(cases, "fun pc => Corr_C04.code (fst pc) (snd pc)", imports=IMPORTS, preamble=preamble, shard=250, label="sched")
+    preamble = "\n".join(t for _, t in pre) + "\n"
+    codes = c05.codes_by_problem(ctx, cases, [o[4] for o in owners], pre, "fun pc => Corr_C04.code (fst pc) (snd pc)",
+                                 IMPORTS, chunk=15, shard=150, label="sched")
     # the sequential side inherits C01's grounder findings: diagnose the plans on which the sequential implementation
     # differs from its model with C03's step-by-step classifier
     failing = []
     for k, ((gen, ser, rec, s0, pi, iplan), code) in enumerate(zip(owners, codes)):
-        if code & 4 and not rec["raised"] and len(failing) < 60:
+        if code & 4 and not rec["raised"] and len(failing) < 1500:
             failing.append((k, pi, gen, ser, iplan))
     diag = c03.diagnose_all(ctx, failing, preamble) if failing else {}
     for k, ((gen, ser, rec, s0, pi, iplan), code) in enumerate(zip(owners, codes)):
